@@ -763,6 +763,18 @@ def _bounded_variants(tier, seed):
 
 
 def _bounded_newton_batch_bits(tier, seed):
+    """runs the comparison in a FRESH interpreter: inside the check process (where the jitted solver has already been specialised for the witnesses) the two calls
+    agree bit for bit; in a fresh process, i.e. as a user would call the library, they do not"""
+    import json, subprocess, sys, os
+    p = subprocess.run([sys.executable, "-c", "import json, contracts.C05 as C; print('RESULT ' + json.dumps(C._newton_batch_bits_core()))"],
+                       capture_output=True, text=True, env=dict(os.environ), timeout=900)
+    for line in p.stdout.splitlines():
+        if line.startswith("RESULT "):
+            return json.loads(line[len("RESULT "):])
+    raise RuntimeError("fresh-interpreter run failed: " + (p.stderr or p.stdout)[-800:])
+
+
+def _newton_batch_bits_core():
     """recorded finding (known_key C05-batch-float-nonconverging): on an unrealisable quadruple inside the unit disc the compiled MEM2-Newton estimate
     of a row computed in a batch of two differs from the same row computed alone (last-bit differences amplified by the non-converging iteration)"""
     import numpy as np
